@@ -303,6 +303,10 @@ seq_t dtw_distance(seq_t *s1, idx_t l1,
         // DTWPruned keeps the last value larger than max_dist. Correct for this.
         result = INFINITY;
     }
+    if (settings->use_pruning && pow(result, 2) > max_dist) {
+        // Pruning is the same as passing the Euclidean upper bound as max_dist
+        result = INFINITY;
+    }
     return result;
 }
 
@@ -550,6 +554,10 @@ seq_t dtw_distance_ndim(seq_t *s1, idx_t l1,
         // DTWPruned keeps the last value larger than max_dist. Correct for this.
         result = INFINITY;
     }
+    if (settings->use_pruning && pow(result, 2) > max_dist) {
+        // Pruning is the same as passing the Euclidean upper bound as max_dist
+        result = INFINITY;
+    }
     return result;
 }
 
@@ -777,6 +785,10 @@ seq_t dtw_distance_euclidean(seq_t *s1, idx_t l1,
     // signal(SIGINT, SIG_DFL);  // not compatible with OMP
     if (settings->max_dist !=0 && result > settings->max_dist) {
         // DTWPruned keeps the last value larger than max_dist. Correct for this.
+        result = INFINITY;
+    }
+    if (settings->use_pruning && result > max_dist) {
+        // Pruning is the same as passing the Euclidean upper bound as max_dist
         result = INFINITY;
     }
     return result;
@@ -1015,6 +1027,10 @@ seq_t dtw_distance_ndim_euclidean(seq_t *s1, idx_t l1,
     // signal(SIGINT, SIG_DFL);  // not compatible with OMP
     if (settings->max_dist !=0 && result > settings->max_dist) {
         // DTWPruned keeps the last value larger than max_dist. Correct for this.
+        result = INFINITY;
+    }
+    if (settings->use_pruning && result > max_dist) {
+        // Pruning is the same as passing the Euclidean upper bound as max_dist
         result = INFINITY;
     }
     return result;
